@@ -1153,6 +1153,45 @@ def while_loop(
   )(scope)
 
 
+def _branch_rng_counter_reset():
+  """Makes every branch of a conditional start from the rng counters of the call site.
+
+  The branches of ``cond``/``switch`` are traced one after the other on scopes
+  that share their rng counters. Without a reset, every branch after the first
+  would see counters already advanced by the earlier ones, so the keys it draws
+  (and the parameters it initializes) would differ from those of the equivalent
+  Python ``if`` and depend on the order in which branches are traced.
+  """
+  start_counts = None
+
+  def snapshot(counts):
+    # keys (stream names, child tokens) are kept as they are; only the dicts are copied
+    return {
+      k: snapshot(v) if isinstance(v, dict) else v for k, v in counts.items()
+    }
+
+  def restore(current, start):
+    # in place: child scopes that are already bound share these dicts
+    for key in list(current):
+      if key not in start:
+        del current[key]
+      elif isinstance(current[key], dict):
+        restore(current[key], start[key])
+      else:
+        current[key] = start[key]
+
+  def reset(scope_tree):
+    nonlocal start_counts
+    scopes = jax.tree_util.tree_leaves(scope_tree)
+    if start_counts is None:
+      start_counts = [snapshot(scope.rng_counters) for scope in scopes]
+    else:
+      for scope, counts in zip(scopes, start_counts):
+        restore(scope.rng_counters, counts)
+
+  return reset
+
+
 def cond(
   pred: Any,
   true_fun: Callable[..., C],
@@ -1204,8 +1243,11 @@ def cond(
   branches = [true_fun, false_fun]
 
   def inner(scope_fn, repack_fn, variable_groups, rng_groups):
+    reset_rng_counters = _branch_rng_counter_reset()
+
     def branch_wrapper(branch_fn, *operands):
       scope = scope_fn(variable_groups, rng_groups)
+      reset_rng_counters(scope)
       y = branch_fn(scope, *operands)
       return y, repack_fn(scope)
 
@@ -1290,8 +1332,11 @@ def switch(
   """
 
   def inner(scope_fn, repack_fn, variable_groups, rng_groups):
+    reset_rng_counters = _branch_rng_counter_reset()
+
     def branch_wrapper(branch_fn, *operands):
       scope = scope_fn(variable_groups, rng_groups)
+      reset_rng_counters(scope)
       y = branch_fn(scope, *operands)
       return y, repack_fn(scope)
 
